@@ -379,7 +379,11 @@ fn law_generic_sane_entails_consensus() {
 # Part 4: thresholds
 # ------------------------------------------------------------------------------------------------------------
 # R12: `(c).then_some(x)` with side-effect free x  ->  `if c { Some(x) } else { None }`  (definition of bool::then_some)
-THEN_SOME = sub("R12-then_some", r"\((MAX > 0)\)\.then_some\((MAX)\)", r"(if \1 { Some(\2) } else { None })")
+# Structural: any comparison of two names / literals as the condition, any name / literal as the value (both side-effect free by
+# their shape).  Optional: a text without `then_some` (the option written as `if c { Some(x) } else { None }` or a `match`) needs
+# no rewrite and is verified as it is; a `then_some` of another shape is rejected by Verus (UNDECIDED), never mis-verified.
+THEN_SOME = sub("R12-then_some", r"\((\w+ (?:>|<|>=|<=|==|!=) \w+)\)\.then_some\((\w+)\)", r"(if \1 { Some(\2) } else { None })",
+                required=False)
 
 THRESH_SPEC = r"""
 // ---- threshold oracle (Miniscript specification: thresh / multi / multi_a need 1 <= k <= n, n within the cap) ----
